@@ -306,34 +306,42 @@ where
         });
     }
 
-    let original = original.into_iter();
+    let mut original = original.into_iter();
     let mut recovery = recovery.into_iter();
 
-    let (shard_bytes, first_recovery) = if let Some(first_recovery) = recovery.next() {
-        (first_recovery.1.as_ref().len(), first_recovery)
+    // Shard size is inferred from the first recovery shard, or from
+    // the first original shard if no recovery shards are given.
+    let first_recovery = recovery.next();
+    let first_original = if first_recovery.is_none() {
+        original.next()
     } else {
-        // NO RECOVERY SHARDS
+        None
+    };
 
-        let original_received_count = original.count();
-        if original_received_count == original_count {
-            // Nothing to do, original data is complete.
-            return Ok(HashMap::new());
+    let shard_bytes = match (&first_recovery, &first_original) {
+        (Some((_, shard)), _) => shard.as_ref().len(),
+        (None, Some((_, shard))) => shard.as_ref().len(),
+        (None, None) => {
+            return Err(Error::NotEnoughShards {
+                original_count,
+                original_received_count: 0,
+                recovery_received_count: 0,
+            });
         }
-
-        return Err(Error::NotEnoughShards {
-            original_count,
-            original_received_count,
-            recovery_received_count: 0,
-        });
     };
 
     let mut decoder = ReedSolomonDecoder::new(original_count, recovery_count, shard_bytes)?;
 
+    if let Some((index, original)) = first_original {
+        decoder.add_original_shard(index, original)?;
+    }
     for (index, original) in original {
         decoder.add_original_shard(index, original)?;
     }
 
-    decoder.add_recovery_shard(first_recovery.0, first_recovery.1)?;
+    if let Some((index, recovery)) = first_recovery {
+        decoder.add_recovery_shard(index, recovery)?;
+    }
     for (index, recovery) in recovery {
         decoder.add_recovery_shard(index, recovery)?;
     }
